@@ -162,3 +162,191 @@ def lr_bytes_lists(draw, cfg, min_records=1, max_records=8, max_total=30000, max
             bytes(((seed + i * 7 + (i >> 8) * 13) & 0xFF) for i in range(m))
         ret.append(head + body)
     return ret
+
+
+# =================================================================================================
+# Logical records (LIS-79 section 3): tables, data format specification
+# =================================================================================================
+LR_TABLE_TYPES = (32, 34, 39)   # job identification, well site data, tool string info
+LR_DFSR = 64
+
+
+def lr_header(lr_type, attr=0):
+    return bytes([lr_type, attr])
+
+
+def component_block(cb_type, rep_code, value_bytes, mnem, units=b'    ', category=0):
+    """Component block: type (73 table / 0 datum block start / 69 datum block entry), representation code, size,
+    category, 4 byte mnemonic, 4 byte units, then the value."""
+    assert len(mnem) == 4 and len(units) == 4 and len(value_bytes) <= 255
+    return bytes([cb_type, rep_code, len(value_bytes), category]) + mnem + units + value_bytes
+
+
+def ref_to68(v):
+    """Reference encoder for code 68: the representable value nearest to zero-side of v (truncation of the 23 bit
+    fraction), as an integer word.  In-range, non-zero v only."""
+    import math
+    from fractions import Fraction
+    if v == 0:
+        return 0x40000000
+    m, e = math.frexp(v)          # v = m * 2**e, 0.5 <= |m| < 1
+    assert -128 <= e <= 127
+    frac = int(Fraction(abs(m)) * (1 << 23))           # truncated magnitude, 2^22 <= frac < 2^23
+    if v > 0:
+        return ((e + 128) << 23) | frac
+    # negative: two's complement fraction, one's complement exponent
+    if frac == (1 << 22) and Fraction(abs(m)) == Fraction(1, 2):
+        # -0.5 * 2^e == -1.0 * 2^(e-1): both spellings decode alike; use the one the truncating algorithm yields
+        pass
+    mant = (1 << 23) - frac
+    return (1 << 31) | ((127 - e) << 23) | (mant & 0x7FFFFF)
+
+
+def cell_bytes(value):
+    """(rep code, bytes) for a table cell the way LIS tables hold them: text as code 65, integers in the smallest of
+    unsigned byte / 16 bit / 32 bit, reals as code 68."""
+    import struct as _s
+    if isinstance(value, bytes):
+        return 65, value
+    if isinstance(value, float):
+        return 68, _s.pack('>I', ref_to68(value))
+    if isinstance(value, int):
+        if 0 <= value <= 255:
+            return 66, bytes([value])
+        if -32768 <= value <= 32767:
+            return 79, _s.pack('>h', value)
+        return 73, _s.pack('>i', value)
+    raise TypeError(type(value))
+
+
+def encode_table_lr(model):
+    """model: {'lr_type': 34, 'name': b'CONS', 'columns': [b'MNEM', ...], 'rows': [[cell, ...], ...]} where a cell is
+    {'v': bytes|int|float, 'u': 4 bytes or None}.  Returns the logical record bytes (header included)."""
+    out = bytearray(lr_header(model['lr_type']))
+    out += component_block(73, 65, model['name'], b'TYPE')
+    for row in model['rows']:
+        for c, cell in enumerate(row):
+            rc, vb = cell_bytes(cell['v'])
+            out += component_block(0 if c == 0 else 69, rc, vb, model['columns'][c], cell['u'] or b'    ')
+    return bytes(out)
+
+
+EB_LEGAL = {
+    # type: (size, rep code, strategy of values)
+    1: (1, 66, st.sampled_from([0, 1])),
+    2: (1, 66, st.just(0)),
+    3: (2, 79, st.integers(0, 32767)),
+    4: (1, 66, st.sampled_from([1, 255, 0])),
+    5: (1, 66, st.sampled_from([1, 255, 0])),
+    6: (4, 68, 'float'),
+    7: (4, 65, 'units'),
+    8: (4, 68, 'float'),
+    9: (4, 65, 'units'),
+    11: (1, 66, st.integers(1, 255)),
+    12: (4, 68, 'float'),
+    13: (1, 66, st.sampled_from([0, 1])),
+    14: (4, 65, 'units'),
+    15: (1, 66, st.sampled_from([68, 73, 49, 79])),
+    16: (1, 66, st.sampled_from([0, 1])),
+}
+UNITS4 = st.sampled_from([b'FEET', b'M   ', b'.1IN', b'INCH', b'S   ', b'MS  ', b'    ', b'GAPI', b'MM  ', b'CM  '])
+NICE_FLOATS = st.one_of(st.sampled_from([0.0, 0.5, -0.5, 60.0, -999.25, 153.0, 1.0, -1.0, 6.0, 0.1524]),
+                        st.floats(min_value=-1e30, max_value=1e30, allow_nan=False).filter(lambda x: x == 0 or abs(x) > 1e-30))
+
+
+@st.composite
+def entry_block_models(draw, types=None):
+    """Ordered list of {'type', 'size', 'rc', 'value'} for a subset of the entry block types (no terminator)."""
+    if types is None:
+        types = draw(st.lists(st.sampled_from(sorted(EB_LEGAL)), unique=True, max_size=15))
+        if draw(st.booleans()):
+            types = sorted(types)
+    out = []
+    for t in types:
+        size, rc, vs = EB_LEGAL[t]
+        if vs == 'float':
+            v = draw(NICE_FLOATS)
+        elif vs == 'units':
+            v = draw(UNITS4)
+        else:
+            v = draw(vs)
+        out.append({'type': t, 'size': size, 'rc': rc, 'value': v})
+    return out
+
+
+def encode_entry_blocks(blocks):
+    """Entry blocks + terminator whose size makes the total length even (LIS-79 3.3.2.2)."""
+    import struct as _s
+    out = bytearray()
+    for b in blocks:
+        if b['rc'] == 65:
+            vb = b['value']
+        elif b['rc'] == 68:
+            vb = _s.pack('>I', ref_to68(b['value']))
+        elif b['rc'] == 66:
+            vb = bytes([b['value']])
+        elif b['rc'] == 79:
+            vb = _s.pack('>h', b['value'])
+        elif b['rc'] == 73:
+            vb = _s.pack('>i', b['value'])
+        else:
+            raise ValueError(b)
+        assert len(vb) == b['size']
+        out += bytes([b['type'], b['size'], b['rc']]) + vb
+    if (len(out) + 3) % 2:
+        out += bytes([0, 1, 66, 0])
+    else:
+        out += bytes([0, 0, 66])
+    assert len(out) % 2 == 0
+    return bytes(out)
+
+
+RC_SIZE = {49: 2, 50: 4, 56: 1, 66: 1, 68: 4, 70: 4, 73: 4, 77: 1, 79: 2}
+MNEM_ALPHA = b'ABCDEFGHIJKLMNOPQRSTUVWXYZ0123456789'
+
+
+@st.composite
+def mnems(draw, n=4):
+    k = draw(st.integers(1, n))
+    return bytes(draw(st.lists(st.sampled_from(list(MNEM_ALPHA)), min_size=k, max_size=k))).ljust(n)
+
+
+@st.composite
+def dsb_models(draw, allow_dipmeter=True, codes=None, max_samples=4, max_bursts=3):
+    kind = draw(st.integers(0, 19)) if allow_dipmeter else 1
+    if kind == 0:
+        rc, size, samples = draw(st.sampled_from([(130, 80, 1), (234, 90, 1)]))
+        bursts, sub = 1, (5 if rc == 130 else 15)
+    else:
+        rc = draw(st.sampled_from(codes or sorted(RC_SIZE)))
+        samples = draw(st.integers(1, max_samples))
+        bursts = draw(st.integers(1, max_bursts))
+        size = RC_SIZE[rc] * samples * bursts
+        sub = 1
+    return {'mnem': draw(mnems()), 'serv_id': draw(mnems(6)), 'serv_ord': draw(mnems(8)), 'units': draw(UNITS4),
+            'api': draw(st.one_of(st.just(0), st.integers(0, 99999999))), 'file_no': draw(st.integers(0, 255)),
+            'size': size, 'samples': samples, 'rc': rc, 'bursts': bursts, 'sub_channels': sub}
+
+
+def encode_dsb(d):
+    import struct as _s
+    out = d['mnem'] + d['serv_id'] + d['serv_ord'] + d['units'] + _s.pack('>I', d['api']) + _s.pack('>hh', d['file_no'], d['size']) \
+        + b'\x00' * 3 + bytes([d['samples'], d['rc']]) + b'\x00' * 5
+    assert len(out) == 40
+    return out
+
+
+def encode_dfsr_lr(blocks, dsbs):
+    return lr_header(LR_DFSR) + encode_entry_blocks(blocks) + b''.join(encode_dsb(d) for d in dsbs)
+
+
+def parse_entry_block_bytes(b):
+    """Independent structural parse of entry block bytes: [(type, size, rc, value bytes)], bytes consumed."""
+    i, out = 0, []
+    while i + 3 <= len(b):
+        t, s, rc = b[i], b[i + 1], b[i + 2]
+        out.append((t, s, rc, bytes(b[i + 3:i + 3 + s])))
+        i += 3 + s
+        if t == 0:
+            break
+    return out, i
